@@ -104,11 +104,16 @@ def snapshot(base):
 
 KEY_ATOMS = ['kdangle', '', '.', '..', '/', '\\', '\0', '\n', '~', 'k1', 'k2', 'new', 'linkout', 'linksib', 'linkself',
              'linkparent', 'linkfile', 'plainfile', '@OUT', '@OUT/odir', '@ST/k1', 'k1/sub', '../outside/odir', 'k1/..',
-             'é', ' ', 'k1/', './k1', 'k1/.', '..\\outside', 'new2', '.gitignore', 'K1', '*', 'k1\\sub']
+             'é', ' ', 'k1/', './k1', 'k1/.', '..\\outside', 'new2', '.gitignore', 'K1', '*', 'k1\\sub',
+             # characters that only LOOK like (or normalise to: NFKC) a dot, a slash or a backslash; as they stand
+             # they are ordinary name characters
+             '\u2025', '\uff0e', '\uff0f', '\uff3c', '\u2024', 'k1\uff0f\u2025\uff0fk2', '\u2025\uff0foutside\uff0fodir',
+             '\uff0e\uff0e', 'k\u00b9', '\ufb01le']
 FILE_ATOMS = ['fdangle_out', 'fdangle_in', 'metadata2.json', '', '.', '..', '/', 'metadata.json', 'data.pickle', 'new.txt', 'flinkout', 'flinkin', 'dlinkout',
               'flinksib', 'sub', 'sub/f', '../k2/x', '../k2/metadata.json', '@OUT/secret.txt', '..\\x', 'a\0b', '~',
               'k1', 'dlinkout/inner.txt', 'dlinkout/new', './metadata.json', 'sub/../metadata.json', 'é.txt', ' ',
-              '../../outside/secret.txt', '../plainfile', 'x/y']
+              '../../outside/secret.txt', '../plainfile', 'x/y',
+              '\u2025\uff0fk2\uff0fmetadata.json', '\uff0e\uff0e\uff0fplainfile', 'metadata\uff0ejson', '\u2025']
 MODES = ['r', 'w', 'a', 'x', 'rb', 'wb', 'r+', 'w+', 'ab']
 
 
